@@ -260,7 +260,56 @@ def build_silf(m, version=0x00030000):
 # ------------------------------------------------------------------------------------------------
 # Glat / Gloc and the sfnt basics
 # ------------------------------------------------------------------------------------------------
+def build_glat3_gloc(m):
+    """Glat version 3: per glyph an octabox record (bitmap, 4 diagonal fractions, 8 bytes per sub-box) and attribute
+    runs with 16-bit attribute numbers / counts.  g["octa"] = (smin, smax, dmin, dmax) in 0..255 of the diagonal
+    extent of the bounding box; g["subs"] = [(xmin, xmax, ymin, ymax, smin, smax, dmin, dmax), ...] likewise."""
+    nattrs = max(NUM_GATTRS_MIN, m.get("nattrs", 0), 1 + max([max(map(int, g.get("attrs", {}).keys()), default=0) for g in m["glyphs"]] or [0]))
+    glat = u32(0x00030000) + u32(1)
+    locs = []
+    for g in m["glyphs"]:
+        locs.append(len(glat))
+        subs = g.get("subs", [])
+        glat += u16((1 << len(subs)) - 1) + bytes(g.get("octa", (0, 255, 0, 255)))
+        for sb in subs:
+            glat += bytes(sb)
+        attrs = {int(k): v for k, v in g.get("attrs", {}).items() if v}
+        if not attrs:
+            attrs = {0: 0}
+        ks = sorted(attrs)
+        i = 0
+        while i < len(ks):
+            j = i
+            while j + 1 < len(ks) and ks[j + 1] == ks[j] + 1:
+                j += 1
+            glat += u16(ks[i]) + u16(j - i + 1)
+            for k in ks[i:j + 1]:
+                glat += u16(attrs[k] & 0xFFFF)
+            i = j + 1
+    locs.append(len(glat))
+    glat += b"\0\0"
+    gloc = u32(0x00010000) + u16(0) + u16(nattrs)
+    for o in locs:
+        gloc += u16(o)
+    return glat, gloc, nattrs
+
+
+def build_glyf_loca(m):
+    """Outline-less glyphs that only carry a bounding box (all the engine reads from glyf)."""
+    glyf = b""
+    loca = b""
+    for g in m["glyphs"]:
+        loca += u16(len(glyf) // 2)
+        xi, yi, xa, ya = g.get("bbox", (0, 0, 0, 0))
+        glyf += struct.pack(">hhhhh", 0, xi, yi, xa, ya) + b"\0\0"
+    loca += u16(len(glyf) // 2)
+    glyf += b"\0" * 12
+    return glyf, loca
+
+
 def build_glat_gloc(m):
+    if m.get("boxes"):
+        return build_glat3_gloc(m)
     nattrs = max(NUM_GATTRS_MIN, 1 + max([max(map(int, g.get("attrs", {}).keys()), default=0) for g in m["glyphs"]] or [0]))
     glat = u32(0x00010000)
     locs = []
@@ -307,6 +356,8 @@ def build_tables(m, silf_version=0x00030000):
     glat, gloc, _ = build_glat_gloc(m)
     t = {"head": head, "hhea": hhea, "hmtx": hmtx, "maxp": maxp, "cmap": cmap, "Glat": glat, "Gloc": gloc,
          "Silf": build_silf(m, silf_version)}
+    if m.get("boxes"):
+        t["glyf"], t["loca"] = build_glyf_loca(m)
     return t
 
 
